@@ -126,13 +126,17 @@ impl Env {
             return Vec::new();
         }
         let mut v = Vec::with_capacity(self.watch.len() + self.owned.len());
+        // watched regions are mapped by the harness and owned+backed pages by us: plain reads
         for &(a, l) in &self.watch {
-            v.push(safe_read(a, l as usize).unwrap_or_default());
+            let mut buf = vec![0u8; l as usize];
+            unsafe { std::ptr::copy_nonoverlapping(a as *const u8, buf.as_mut_ptr(), l as usize) };
+            v.push(buf);
         }
         for (&a, &(_, backed)) in &self.owned {
-            let mut rec = a.to_le_bytes().to_vec();
+            let mut rec = vec![0u8; 8 + if backed { 64 } else { 0 }];
+            rec[..8].copy_from_slice(&a.to_le_bytes());
             if backed {
-                rec.extend_from_slice(&safe_read(a, 64).unwrap_or_default());
+                unsafe { std::ptr::copy_nonoverlapping(a as *const u8, rec[8..].as_mut_ptr(), 64) };
             }
             v.push(rec);
         }
